@@ -708,3 +708,46 @@ Lemma npultra_geom_none sh x r f sites split srt :
 Proof.
   unfold geometry, geometry_unsorted. cbn [map_opt]. now rewrite npultra_geom_row_offgrid.
 Qed.
+
+(* ================================================================== *)
+(* totality: where the model has an answer                             *)
+(* ================================================================== *)
+Lemma map_opt_total {A B} (f : A -> option B) l : (forall a, In a l -> f a <> None) ->
+  exists r, map_opt f l = Some r.
+Proof.
+  induction l as [|a l IH]; intros H; [now exists []|].
+  destruct IH as [r Hr]; [intros b Hb; apply H; now right|].
+  destruct (f a) as [b|] eqn:E; [|exfalso; apply (H a); [now left|exact E]].
+  exists (b :: r). cbn. now rewrite E, Hr.
+Qed.
+
+Lemma map_opt_some_all {A B} (f : A -> option B) l r : map_opt f l = Some r ->
+  forall a, In a l -> f a <> None.
+Proof.
+  revert r. induction l as [|a l IH]; intros r H b Hb; [destruct Hb|]. cbn in H.
+  destruct (f a) eqn:E; [|discriminate]. destruct (map_opt f l) eqn:E2; [|discriminate].
+  destruct Hb as [<-|Hb]; [congruence|]. now apply (IH l0).
+Qed.
+
+(* the geometry exists exactly when there are at most 384 entries and every entry is on the grid
+   (always the case in the shank-map encoding) *)
+Lemma geometry_defined g e sites split srt :
+  (exists t inds, geometry g e sites split srt = Some (t, inds)) <->
+  ((length sites <= NC)%nat /\ forall s, In s sites -> site_crxy g e s <> None).
+Proof.
+  split.
+  - intros [t [inds H]]. unfold geometry in H.
+    destruct (geometry_unsorted g e sites split) as [t0|] eqn:E; [|discriminate].
+    destruct (geometry_unsorted_inv _ _ _ _ _ E) as [q [Eq [Hl _]]].
+    split; [exact Hl|]. now apply (map_opt_some_all _ _ q).
+  - intros [Hl Hs]. destruct (map_opt_total _ sites Hs) as [q Eq].
+    unfold geometry. rewrite (geometry_unsorted_intro g e sites split q Eq Hl).
+    destruct srt; eexists; eexists; reflexivity.
+Qed.
+
+Lemma shankmap_on_grid g s : site_crxy g ShankMap s <> None.
+Proof. unfold site_crxy. discriminate. Qed.
+
+Lemma geometry_total_shankmap g sites split srt : (length sites <= NC)%nat ->
+  exists t inds, geometry g ShankMap sites split srt = Some (t, inds).
+Proof. intros Hl. apply geometry_defined. split; [exact Hl|]. intros s _. apply shankmap_on_grid. Qed.
